@@ -67,8 +67,9 @@ var (
 	reBitsFrom   = regexp.MustCompile(`^data := make\(\[\]byte, (\d+)\) ; if n, err := io\.ReadFull\(r, data\); err != nil \{ return int64\(n\), err \} ; return (\d+), v\.UnmarshalBinary\(data\)$`)
 	reVbFrom     = regexp.MustCompile(`^var (\w+) uint = 1 ; var (\w+) uint ; data := make\(\[\]byte, (\d+)\) ; var i int64 ; ` +
 		`for \{ if _, err := io\.ReadFull\(r, data\); err != nil \{ return i, err \} i\+\+ (\w+) := data\[0\] (\w+) \+= uint\((\w+)\) & uint\((\d+)\) \* (\w+) ` +
-		`if (\w+) (>|>=) ([\d\*]+) \{ return i, unmarshalErr\(v, "", "size exceeded"\) \} if (\w+)&(\d+) == 0 \{ break \} (\w+) = (\w+) \* (\d+) \} ; ` +
+		`if (\w+) (>|>=) ([\d\*]+) \{ return i, unmarshalErr\(v, "", "size exceeded"\) \} if (\w+)&(\d+) (?:==|!=|<=|>=|<|>) 0 \{ break \} (\w+) = (\w+) \* (\d+) \} ; ` +
 		`\*v = vbint\((\w+)\) ; return i, nil$`)
+	reVbFromOps = regexp.MustCompile(`if \w+&\d+ (==|!=|<=|>=|<|>) 0 \{ break \}`)
 	reRemaining = regexp.MustCompile(`^if f\.remainingLen (==|<=) (\d+) \{ return p, nil \} ; data := make\(\[\]byte, int\(f\.remainingLen\)\) ; ` +
 		`if _, err := io\.ReadFull\(r, data\); err != nil \{ return nil, fmt\.Errorf\( ?"[^"]*%w[^"]*", .*err,? ?\) \} ; ` +
 		`if err := p\.UnmarshalBinary\(data\); err != nil \{ return nil, fmt\.Errorf\( ?"[^"]*%w[^"]*", .*err,? ?\) \} ; return p, nil$`)
@@ -97,6 +98,7 @@ func streamGen() (string, []string) {
 	}
 	k1, vbK, mask, op, limit, cont, step := "1", "1", "127", ">", "128*128*128", "128", "128"
 	zop, zk := "=", "0"
+	contOp := "="
 	ok := true
 	if b, have := body(".ReadPacket", "", 0); have {
 		if m := reReadPacket.FindStringSubmatch(b); m == nil || m[1] != m[2] || m[1] != m[3] {
@@ -125,6 +127,7 @@ func streamGen() (string, []string) {
 		m := reVbFrom.FindStringSubmatch(b)
 		if m != nil && m[1] == m[8] && m[1] == m[9] && m[1] == m[14] && m[1] == m[15] && m[2] == m[5] && m[2] == m[17] && m[4] == m[6] && m[4] == m[12] {
 			vbK, mask, op, limit, cont, step = m[3], m[7], map[string]string{">": ">", ">=": "≥"}[m[10]], m[11], m[13], m[16]
+			contOp = map[string]string{"==": "=", "!=": "≠", "<": "<", "<=": "≤", ">": ">", ">=": "≥"}[reVbFromOps.FindStringSubmatch(b)[1]]
 		} else {
 			bad, ok = append(bad, "vbint.ReadFrom: "+b), false
 		}
@@ -167,7 +170,7 @@ def vbint.readFrom : Nat → Reader → Nat → Nat → (Option Nat × Option Er
       | b :: _ =>
         let acc' := acc + (b.toNat &&& %s) * mult
         if mult %s %s then ((none, some .sizeExceeded), r')
-        else if b.toNat &&& %s = 0 then ((some acc', none), r')
+        else if b.toNat &&& %s %s 0 then ((some acc', none), r')
         else vbint.readFrom fuel r' (mult * %s) acc'
 
 /-- `+"`ReadPacket`"+` = `+"`fixedHeader.ReadFrom`"+` (fixed byte by `+"`bits.ReadFrom`"+`, then the remaining length) + `+"`ReadRemaining`"+` -/
@@ -191,7 +194,7 @@ def readPacket (r : Reader) : RP × Reader :=
           | (_, .panic) => (.panic, r)
           | (_, .hang) => (.hang, r)
 
-`, vbK, vbK, mask, op, limit, cont, step, k1, zop, zk)
+`, vbK, vbK, mask, op, limit, cont, contOp, step, k1, zop, zk)
 	} else {
 		sb.WriteString("def readPacket (r : Reader) : RP × Reader := (.hang, r)\n\n")
 	}
